@@ -169,7 +169,8 @@ theorem dispatchingAllowed_true (env : Env) (d : Desc) (n : Node) (h : (dispatch
 
 theorem allowed_of (env : Env) (d : Desc) (m : Node) (it : Item) (hg : m.store.get d.key = some it)
     (hn : (m.peers.map (·.addr)).Nodup)
-    (h : m.cfg.algo ≠ .epidemic ∨ ∃ q ∈ m.peers, it.rt.sentE.contains q.eid = false) :
+    (h : m.cfg.algo ≠ .epidemic ∨ (m.cfg.gateDirect = true ∧ epiDirect m it = true) ∨
+      ∃ q ∈ m.peers, it.rt.sentE.contains q.eid = false) :
     (dispatchingAllowed env d m).1 = true := by
   unfold dispatchingAllowed
   cases ha : m.cfg.algo with
@@ -177,14 +178,28 @@ theorem allowed_of (env : Env) (d : Desc) (m : Node) (it : Item) (hg : m.store.g
     simp only [hg]
     by_cases hloc : epiLocal m.cfg it = true
     · simp only [hloc, if_true]
-    · rcases h with h | ⟨q, hq, hs⟩
+    · rcases h with h | ⟨hg1, hg2⟩ | ⟨q, hq, hs⟩
       · exact absurd ha h
+      · simp only [hloc, hg1, hg2, Bool.and_self, Bool.false_eq_true, if_false, if_true]
       · have := filterCLAs_nonempty it.rt.sentE (senders env m d.key) q (mem_senders_of_mem hn hq) hs
-        simp only [hloc, this, Bool.false_eq_true, if_false]
+        by_cases hgd : (m.cfg.gateDirect && epiDirect m it) = true
+        · simp only [hloc, hgd, Bool.false_eq_true, if_false, if_true]
+        · simp only [hloc, hgd, this, Bool.false_eq_true, if_false]
   | spray => rfl
   | binarySpray => rfl
   | prophet => rfl
   | dtlsr => rfl
+
+/-- Every stored item carries `routing/epidemic/destination`, and it names the destination of the stored
+bundle (an invariant of epidemic routing for the code as it is: `Dtn7.Node.epiOk_step`). -/
+def EpiOk (n : Node) : Prop := ∀ k it, n.store.get k = some it → it.rt.epiDst = some it.bundle.dst
+
+theorem epiDirect_of (m : Node) (it : Item) (p : Peer) (hp : p ∈ m.peers)
+    (hs : p.eid.sameNode it.bundle.dst = true) (he : it.rt.epiDst = some it.bundle.dst) :
+    epiDirect m it = true := by
+  unfold epiDirect
+  rw [he]
+  exact List.any_eq_true.mpr ⟨p, hp, hs⟩
 
 /-- A retry of a stored bundle that the algorithm lets through and that can be loaded is `forward`. -/
 theorem dispatching_retry (env : Env) (m : Node) (k : Key) (it : Item) (hg : m.store.get k = some it)
@@ -258,7 +273,8 @@ theorem checkPending_direct (env : Env) (n1 : Node) (w : WF n1) (hn : (n1.peers.
     (k : Key) (it : Item) (hg : n1.store.get k = some it) (c : Cfg) (hc : n1.cfg = c)
     (hw : isWaiting c n1.now (itemView (k, it)) = true)
     (p : Peer) (hp : p ∈ n1.peers) (hs : p.eid.sameNode it.bundle.dst = true)
-    (hgate : n1.cfg.algo ≠ .epidemic ∨ ∃ q ∈ n1.peers, it.rt.sentE.contains q.eid = false) :
+    (hgate : n1.cfg.algo ≠ .epidemic ∨ (n1.cfg.gateDirect = true ∧ it.rt.epiDst = some it.bundle.dst) ∨
+      ∃ q ∈ n1.peers, it.rt.sentE.contains q.eid = false) :
     sentIn (checkPending env n1).2 p.addr it.bundle.tag = true := by
   unfold isWaiting at hw
   simp only [itemView, Bool.and_eq_true, Bool.not_eq_true'] at hw
@@ -272,7 +288,12 @@ theorem checkPending_direct (env : Env) (n1 : Node) (w : WF n1) (hn : (n1.peers.
     (by
       intro m hm hgm
       have hall := allowed_of env (newDesc m k) m it (by rw [newDesc_key]; exact hgm) (by rw [hm.peers]; exact hn)
-        (by rw [hm.cfg, hm.peers]; exact hgate)
+        (by
+          rw [hm.cfg, hm.peers]
+          rcases hgate with h | ⟨h1, h2⟩ | h
+          · exact Or.inl h
+          · exact Or.inr (Or.inl ⟨h1, epiDirect_of m it p (by rw [hm.peers]; exact hp) hs h2⟩)
+          · exact Or.inr (Or.inr h))
       rw [dispatching_retry env m k it hgm hall (by rw [hm.now]; exact hl) (by rw [hm.cfg]; exact hdst')]
       rcases forward_direct env { newDesc m k with bndl := some it.bundle } it.bundle m
         (by rw [hm.now]; exact hf) (by rw [hm.peers]; exact hn) p (by rw [hm.peers]; exact hp) hs with ⟨ok, hok⟩
@@ -301,7 +322,7 @@ theorem checkPending_flood (env : Env) (n1 : Node) (w : WF n1) (hn : (n1.peers.m
     (by
       intro m hm hgm
       have hall := allowed_of env (newDesc m k) m it (by rw [newDesc_key]; exact hgm) (by rw [hm.peers]; exact hn)
-        (Or.inr ⟨p, by rw [hm.peers]; exact hp, hs⟩)
+        (Or.inr (Or.inr ⟨p, by rw [hm.peers]; exact hp, hs⟩))
       rw [dispatching_retry env m k it hgm hall (by rw [hm.now]; exact hl) (by rw [hm.cfg]; exact hdst')]
       rcases forward_flood env { newDesc m k with bndl := some it.bundle } it.bundle m it
         (by rw [hm.cfg, hc]; exact halgo) (by rw [hm.cfg, hc]; exact hmule)
@@ -319,12 +340,14 @@ theorem sentIn_append_left {a b : List Output} {x y : Nat} (h : sentIn a x y = t
   unfold sentIn at *
   rw [List.any_append, h, Bool.true_or]
 
-/-- The expression `directFail` evaluates for `peerUp` / `retryTick`, on the model's own observations. -/
+/-- The expression `directFail` evaluates for `peerUp` / `retryTick`, on the model's own observations:
+the only possible failure is the closed gate of epidemic routing, and only for the code without
+`gateDirect`. -/
 theorem direct_core (c : Cfg) (env : Env) (n n1 : Node) (w : WF n) (hc : n.cfg = c)
     (hs : n1.store = n.store) (hcfg : n1.cfg = n.cfg) (hnow : n1.now = n.now)
-    (hn : (n1.peers.map (·.addr)).Nodup) (outs : List Output)
-    (hout : ∀ x y, sentIn (checkPending env n1).2 x y = true → sentIn outs x y = true) :
-    ((viewOf n).items.findSome? fun i =>
+    (hn : (n1.peers.map (·.addr)).Nodup) (he : c.algo = .epidemic → EpiOk n) (outs : List Output)
+    (hout : ∀ x y, sentIn (checkPending env n1).2 x y = true → sentIn outs x y = true) (cls : String)
+    (hfail : ((viewOf n).items.findSome? fun i =>
       if isWaiting c n.now i then
         n1.peers.findSome? fun p =>
           if p.eid.sameNode i.bundle.dst && !sentIn outs p.addr i.bundle.tag then
@@ -332,8 +355,8 @@ theorem direct_core (c : Cfg) (env : Env) (n n1 : Node) (w : WF n) (hc : n.cfg =
             then some "direct-not-sent-all-peers-in-sent-list"
             else some "direct-not-sent"
           else none
-      else none) ≠ some "direct-not-sent" := by
-  intro hfail
+      else none) = some cls) :
+    cls = "direct-not-sent-all-peers-in-sent-list" ∧ c.gateDirect = false := by
   rcases List.exists_of_findSome?_eq_some hfail with ⟨i, hi, hfi⟩
   rcases mem_viewOf w hi with ⟨k, it, hg, rfl⟩
   by_cases hw : isWaiting c n.now (itemView (k, it)) = true
@@ -342,61 +365,72 @@ theorem direct_core (c : Cfg) (env : Env) (n n1 : Node) (w : WF n) (hc : n.cfg =
     by_cases hcond : (p.eid.sameNode (itemView (k, it)).bundle.dst &&
         !sentIn outs p.addr (itemView (k, it)).bundle.tag) = true
     · simp only [hcond, if_true] at hfp
-      by_cases hgate : (c.algo == .epidemic && n1.peers.all (fun q => (itemView (k, it)).sentE.contains q.eid)) = true
-      · simp only [hgate, if_true] at hfp
-        exact absurd hfp (by decide)
-      · -- the gate is open: the bundle was handed to `p`
+      have w1 : WF n1 := ⟨by rw [hs]; exact w.keyed, by rw [hs]; exact w.nodup⟩
+      -- whenever the gate is open the bundle was handed to `p`
+      have hopen : (n1.cfg.algo ≠ .epidemic ∨ (n1.cfg.gateDirect = true ∧ it.rt.epiDst = some it.bundle.dst) ∨
+          ∃ q ∈ n1.peers, it.rt.sentE.contains q.eid = false) → False := by
+        intro hgate'
         simp only [Bool.and_eq_true, Bool.not_eq_true'] at hcond
-        have w1 : WF n1 := ⟨by rw [hs]; exact w.keyed, by rw [hs]; exact w.nodup⟩
-        have hgate' : n1.cfg.algo ≠ .epidemic ∨ ∃ q ∈ n1.peers, it.rt.sentE.contains q.eid = false := by
-          by_cases ha : c.algo = .epidemic
-          · right
-            simp only [ha, beq_self_eq_true, Bool.true_and, Bool.not_eq_true] at hgate
-            have : ¬ (n1.peers.all (fun q => (itemView (k, it)).sentE.contains q.eid) = true) := by
-              rw [hgate]; simp
-            have hex : ∃ q ∈ n1.peers, it.rt.sentE.contains q.eid = false := by
-              apply Classical.byContradiction
-              intro hno
-              apply this
-              apply List.all_eq_true.mpr
-              intro q hq
-              cases hcon : (itemView (k, it)).sentE.contains q.eid
-              · exact absurd ⟨q, hq, by simpa [itemView] using hcon⟩ hno
-              · rfl
-            exact hex
-          · left
-            rw [hcfg, hc]
-            exact ha
         have := checkPending_direct env n1 w1 hn k it (by rw [hs]; exact hg) c (hcfg.trans hc)
           (by rw [hnow]; exact hw) p hp (by simpa [itemView] using hcond.1) hgate'
         have := hout _ _ this
         simp only [itemView] at hcond
         rw [this] at hcond
         exact absurd hcond.2 (by simp)
+      by_cases hgate : (c.algo == .epidemic && n1.peers.all (fun q => (itemView (k, it)).sentE.contains q.eid)) = true
+      · simp only [hgate, if_true] at hfp
+        cases hfp
+        refine ⟨rfl, ?_⟩
+        cases hgd : c.gateDirect
+        · rfl
+        · have ha : c.algo = .epidemic := by
+            simp only [Bool.and_eq_true, beq_iff_eq] at hgate
+            exact hgate.1
+          exact (hopen (Or.inr (Or.inl ⟨by rw [hcfg, hc]; exact hgd, he ha k it hg⟩))).elim
+      · exfalso
+        apply hopen
+        by_cases ha : c.algo = .epidemic
+        · right; right
+          simp only [ha, beq_self_eq_true, Bool.true_and, Bool.not_eq_true] at hgate
+          have : ¬ (n1.peers.all (fun q => (itemView (k, it)).sentE.contains q.eid) = true) := by
+            rw [hgate]; simp
+          apply Classical.byContradiction
+          intro hno
+          apply this
+          apply List.all_eq_true.mpr
+          intro q hq
+          cases hcon : (itemView (k, it)).sentE.contains q.eid
+          · exact absurd ⟨q, hq, by simpa [itemView] using hcon⟩ hno
+          · rfl
+        · left
+          rw [hcfg, hc]
+          exact ha
     · simp only [hcond, Bool.false_eq_true, if_false] at hfp
       cases hfp
   · simp only [hw, Bool.false_eq_true, if_false] at hfi
     cases hfi
 
-/-- `SentToDestination` on the model's own step: the only possible failure is the closed epidemic gate. -/
+/-- `SentToDestination` on the model's own step: the only possible failure is the closed epidemic gate,
+and with `gateDirect` there is none. -/
 theorem direct_step (c : Cfg) (env : Env) (e : Event) (s : SpecSt) (n : Node)
-    (inv : VInv c s n) :
-    directFail c s (obsOf (e, (step env n e).2, (step env n e).1)) ≠ some "direct-not-sent" := by
-  unfold directFail
-  simp only [obsOf]
+    (inv : VInv c s n) (he : c.algo = .epidemic → EpiOk n) (cls : String)
+    (hfail : directFail c s (obsOf (e, (step env n e).2, (step env n e).1)) = some cls) :
+    cls = "direct-not-sent-all-peers-in-sent-list" ∧ c.gateDirect = false := by
+  unfold directFail at hfail
+  simp only [obsOf] at hfail
   cases e with
   | peerUp p =>
-    simp only [peersAfter, nowAfter, inv.peers, inv.prev, inv.now]
+    simp only [peersAfter, nowAfter, inv.peers, inv.prev, inv.now] at hfail
     by_cases hany : n.peers.any (fun q => q.addr == p.addr) = true
-    · simp only [hany, if_true]
-      refine direct_core c env n n inv.wf inv.cfg rfl rfl rfl inv.pnodup _ ?_
+    · simp only [hany, if_true] at hfail
+      refine direct_core c env n n inv.wf inv.cfg rfl rfl rfl inv.pnodup he _ ?_ cls hfail
       intro x y h
       have : (step env n (.peerUp p)).2 = (checkPending env n).2 ++
           deletedKeys n.store (checkPending env n).1.store := by
         simp only [step, stepCore, hany, if_true]
       rw [this]
       exact sentIn_append_left h
-    · simp only [hany, Bool.false_eq_true, if_false]
+    · simp only [hany, Bool.false_eq_true, if_false] at hfail
       have hpn : (({ n with peers := n.peers ++ [p] } : Node).peers.map (·.addr)).Nodup := by
         simp only [List.map_append, List.map_cons, List.map_nil]
         refine List.nodup_append.mpr ⟨inv.pnodup, by simp, ?_⟩
@@ -409,7 +443,7 @@ theorem direct_step (c : Cfg) (env : Env) (e : Event) (s : SpecSt) (n : Node)
         apply hany
         apply List.any_eq_true.mpr
         exact ⟨q, hq, by simp [hqa]⟩
-      refine direct_core c env n { n with peers := n.peers ++ [p] } inv.wf inv.cfg rfl rfl rfl hpn _ ?_
+      refine direct_core c env n { n with peers := n.peers ++ [p] } inv.wf inv.cfg rfl rfl rfl hpn he _ ?_ cls hfail
       intro x y h
       have : (step env n (.peerUp p)).2 = (checkPending env { n with peers := n.peers ++ [p] }).2 ++
           deletedKeys n.store (checkPending env { n with peers := n.peers ++ [p] }).1.store := by
@@ -417,19 +451,19 @@ theorem direct_step (c : Cfg) (env : Env) (e : Event) (s : SpecSt) (n : Node)
       rw [this]
       exact sentIn_append_left h
   | retryTick =>
-    simp only [peersAfter, nowAfter, inv.peers, inv.prev, inv.now]
-    refine direct_core c env n n inv.wf inv.cfg rfl rfl rfl inv.pnodup _ ?_
+    simp only [peersAfter, nowAfter, inv.peers, inv.prev, inv.now] at hfail
+    refine direct_core c env n n inv.wf inv.cfg rfl rfl rfl inv.pnodup he _ ?_ cls hfail
     intro x y h
     have : (step env n .retryTick).2 = (checkPending env n).2 ++
         deletedKeys n.store (checkPending env n).1.store := by
       simp only [step, stepCore]
     rw [this]
     exact sentIn_append_left h
-  | submit b => simp
-  | receive b r => simp
-  | peerDown a => simp
-  | cleanTick t => simp
-  | restart => simp
+  | submit b => simp at hfail
+  | receive b r => simp at hfail
+  | peerDown a => simp at hfail
+  | cleanTick t => simp at hfail
+  | restart => simp at hfail
 
 
 theorem peer_ext {p q : Peer} (ha : q.addr = p.addr) (he : q.eid = p.eid) : q = p := by
